@@ -3,7 +3,7 @@
  "name": "p1_process_block_illegal_detect",
  "props": ["C02"],
  "level": "U/iter",
- "tier": "wip",
+ "tier": "quick",
  "tier_after_hooks": "quick",
  "harness": "h_pb_detect",
  "loop_contracts": true,
@@ -25,7 +25,7 @@
  "name": "p1_process_block_illegal_repair",
  "props": ["C01"],
  "level": "U/iter",
- "tier": "wip",
+ "tier": "quick",
  "tier_after_hooks": "quick",
  "harness": "h_pb_repair",
  "loop_contracts": true,
@@ -44,7 +44,7 @@
  "name": "p1_process_block_zero",
  "props": ["C01", "C05"],
  "level": "U/iter",
- "tier": "wip",
+ "tier": "quick",
  "tier_after_hooks": "quick",
  "harness": "h_pb_zero",
  "loop_contracts": true,
@@ -62,7 +62,7 @@
  "name": "p1_process_block_legal",
  "props": ["C02", "C05"],
  "level": "U/iter",
- "tier": "wip",
+ "tier": "quick",
  "tier_after_hooks": "quick",
  "harness": "h_pb_legal",
  "loop_contracts": true,
